@@ -112,7 +112,7 @@ func init() {
 		Explain: "Decides structural necessary conditions on every path of consumer.go: a ConsumerMessage is only built for offsets ≥ child.offset and child.offset is then advanced to exactly that offset+1 (C03.advance); every field of the delivered message comes from the corresponding field of the parsed record/message, and the fetch request asks for (topic, partition, child.offset, fetchSize) of the same child (C03.fields/request); " +
 			"the fetch/parse hand-shake: one acks.Done per response per subscription, Add→feed→Wait→handleResponses order (C03.acks); every subscription result class is redispatched exactly once and dropped from the broker worker, a timed-out feeder resubscribes itself (C03.redispatch); tabled senders on messages and writers of child.offset (C03.who); a response holding only a truncated record always changes something before the next fetch — the fetch size doubles, or at the configured maximum ErrMessageTooLarge is reported and the record stepped over; the size is reset only after records arrived (C03.partial-progress); what decompress() returns is never storage it puts back into a pool — the decoders slice keys and values out of it without copying (C04.owned-output, shared). " +
 			"NOT covered: base-offset arithmetic of v1 wrappers, the int32 overflow clamp of the doubled fetch size, progress under faults in general, decompression.",
-		Rules: []func(*Ctx){c03Advance, c03ResponseSkip, c03PartialProgress, c03EmptyEntry, c04OwnedOutput, c18Consumer, c03Fields, c03Request, c03Acks, c03Redispatch, c03Who, c03FetchFields, c03FreshElement, c11Rules, c11ControlTolerant, c03ErrLost, c12Refcount, c03FreshFetchRequest, c12DispatcherObservesDying, c03CountVsCompressedSize, c11DecodedElementKept, c03TimerRearmed, c11EveryBatchCounted, c03AbortAbandons, c09MessageSetStopsAtV2, c03VerdictConsumed, c10MessageSetConsumesOrFlags, c03HandedOverBatch},
+		Rules: []func(*Ctx){c03Advance, c03ResponseSkip, c03PartialProgress, c03EmptyEntry, c04OwnedOutput, c18Consumer, c03Fields, c03Request, c03Acks, c03Redispatch, c03Who, c03FetchFields, c03FreshElement, c11Rules, c11ControlTolerant, c03ErrLost, c12Refcount, c03FreshFetchRequest, c12DispatcherObservesDying, c03CountVsCompressedSize, c11DecodedElementKept, c03TimerRearmed, c11EveryBatchCounted, c03AbortAbandons, c09MessageSetStopsAtV2, c03VerdictConsumed, c10MessageSetConsumesOrFlags, c03HandedOverBatch, c10NoNilIntoPool},
 	})
 }
 
